@@ -217,6 +217,36 @@ func (x *c17X) one(day sm.Date, minute int, o Op, lay int, viaCLI bool) {
 		return
 	}
 	c.Sample(func() any { return map[string]any{"case": cs(), "after": after} })
+	// seconds within the minute: the statement quantifies over wall-clock MINUTES, so a reading of hh:mm:40 may be
+	// taken as hh:mm (klog cuts the seconds off) or as the next minute - but as ONE consistent instant: the result
+	// must be what the model gives for (day, hh:mm) or for (day, hh:mm) + 1 minute (on the next day after 23:59).
+	if minute%360 == 359 || minute == 0 {
+		env40 := env
+		env40.Secs = 40
+		os.WriteFile(path, []byte(before), 0644)
+		r40, _ := ExecOp(x.home, path, o, env40)
+		after40 := clidrv.ReadFile(path)
+		envNext := env
+		envNext.NowMins++
+		if envNext.NowMins == 1440 {
+			envNext.NowMins, envNext.Today = 0, sm.FromDayNumber(today+1)
+		}
+		ok40 := false
+		for _, mm := range []ModelResult{m, o.Apply(ref.Records, envNext)} {
+			if !mm.OK {
+				ok40 = ok40 || (r40.Code != 0 && after40 == before)
+				continue
+			}
+			if ra := sm.ParseLenient(after40); r40.Code == 0 && ra.Verdict == sm.Valid && matchesModel(ra.Records, mm) {
+				ok40 = true
+			}
+		}
+		if r40.Panicked || !ok40 {
+			c.Violation("seconds-inconsistent:"+o.Kind, cs(), fmt.Sprintf("`klog %s` %s:40 (forty seconds into the minute; exit %d, panic %v) wrote\n%q\nwhich is neither what the clock reading %02d:%02d requires nor what the following minute requires", o.String(), at, r40.Code, r40.PanicVal, after40, minute/60, minute%60))
+			return
+		}
+		c.Count("seconds_cases", 1)
+	}
 }
 
 // ---- total --now at every minute
